@@ -719,6 +719,7 @@ impl Callbacks for Cb {
         let mut adts = vec![];
         let mut impls = vec![];
         let mut traits = vec![];
+        let mut modules: Vec<J> = vec![];
         for id in tcx.hir_free_items() {
             let did = id.owner_id.to_def_id();
             match tcx.def_kind(did) {
@@ -772,6 +773,9 @@ impl Callbacks for Cb {
                     item_facts(tcx, did, &mut f);
                     impls.push(J::obj(f));
                 }
+                DefKind::Mod => {
+                    modules.push(J::s(&plain_path(tcx, did)));
+                }
                 DefKind::Trait => {
                     let mut f: Vec<(&'static str, J)> = vec![("path", J::s(&plain_path(tcx, did))), ("vis", J::s(&format!("{:?}", tcx.visibility(did)))),
                         ("reachable", J::b(tcx.effective_visibilities(()).is_reachable(id.owner_id.def_id)))];
@@ -796,6 +800,7 @@ impl Callbacks for Cb {
             ("adts", J::Arr(adts)),
             ("impls", J::Arr(impls)),
             ("traits", J::Arr(traits)),
+            ("modules", J::Arr(modules)),
         ]);
         let mut s = String::new();
         root.write(&mut s);
